@@ -7,36 +7,89 @@ import Penguin.Lemmas.PairRecv
 namespace Penguin.Pair
 open Penguin.Mux
 
-/-- A dropped-handle notification is handled: whatever phase the flow was in, it is dead now. -/
+/-- A dropped-handle notification is handled: a live flow is released (it stays live, its sending
+    direction continues with the sender frozen); a flow that was never linked is dead. -/
 theorem inv_notif {p : PS} (h : Inv p) (fid : Nat) (rest : List Nat) (hq : p.a.droppedq = fid :: rest) :
     Inv { p with a := (closeFlow { p.a with droppedq := rest } fid false).1 } := by
   have s1 : Eff (· = fid) p.a { p.a with droppedq := rest } := Eff.dqPop p.a fid rest hq rfl
   have s := s1.trans (closeFlow_eff _ fid false (s1.slotFid h.sfA))
   have hgf : GhostFresh (closeFlow { p.a with droppedq := rest } fid false).1 p.ga :=
     fun k hk => h.ghA k (Nat.le_trans s.len hk)
-  refine inv_of_eff (g' := p.ga) (ba' := p.ba) h s (Or.inl rfl) (fun x _ => GhostAgree.refl x _ _) hgf ?_
+  refine inv_of_eff (g' := p.ga) (ba' := p.ba) (lk' := p.linked) h s (Or.inl rfl) (fun x _ => GhostAgree.refl x _ _) hgf
+    (fun _ _ hh => hh) ?_
   intro x hx
   subst hx
   have hin : x ∈ p.a.droppedq := by rw [hq]; simp
-  have dead : ∀ (_ : ¬ x ∈ p.a.rng) (_ : ¬ x ∈ p.b.rng) (_ : noConnect (fl x (pathAB p))) (_ : noConnect (fl x (pathBA p))),
-      Phase x { p with a := (closeFlow { p.a with droppedq := rest } x false).1 } := by
-    intro ra rb nab nba
-    exact Or.inr (Or.inr (Or.inr (Or.inr (Or.inr (Or.inr ⟨fun hh => ra (s.rngSub.subset hh), rb,
-      noConnect_eff (p := p) s ra nab, nba, Or.inl (closeFlow_slot_none _ x false)⟩)))))
-  rcases h.phase x with r | r | r | r | r | r | r
-  · exact absurd hin r.da
-  · exact absurd hin r.da
-  · exact absurd hin r.db
-  · exact absurd hin r.da
-  · obtain ⟨j, oP, rest', l, _, _, _, h4, h5, _⟩ := r.body
-    refine dead r.rb r.ra ?_ (by rw [r.fab]; intro m hm; cases hm)
-    rw [h4]
-    intro m hm
-    rcases List.mem_cons.mp hm with hh | hh
-    · subst hh; rfl
-    · exact (h5 m hh).1
-  · exact dead r.ra r.rb r.nab r.nba
-  · exact dead r.ra r.rb r.nab r.nba
+  have hsub : ∀ z, z ∈ rest → z ∈ p.a.droppedq := fun z hz => by rw [hq]; exact List.mem_cons_of_mem _ hz
+  -- a live flow
+  have live : Linked x (ev x p.a p.ga) (ev x p.b p.gb) (fl x (pathAB p)) (fl x (pathBA p)) →
+      Linked x (ev x (closeFlow { p.a with droppedq := rest } x false).1 p.ga) (ev x p.b p.gb)
+        (fl x (p.ab ++ (closeFlow { p.a with droppedq := rest } x false).1.outq)) (fl x (p.ba ++ p.b.outq)) := by
+    intro r
+    obtain ⟨i, j, oA, oB, h3, h4, h5, h6, c1, c2, sl1, sl2, n1, n2, w1, w2, q1, q2, k1, k2⟩ := r.body
+    obtain ⟨ho, hfid⟩ := objView_some h3
+    rcases sl1 with sl1 | ⟨sl1, f1, f2⟩
+    · have hs : lookup p.a.flows x = some (.established i) := sl1
+      have u := closeFlow_est { p.a with droppedq := rest } x i oA false hs ho h.runA.outClosed
+      have hrx : oA.rxOpen = false := q1 hin
+      have r' : Linked x (ev x p.a p.ga) (ev x p.b p.gb) (fl x (pathAB p)) ([] ++ fl x (pathBA p)) :=
+        ⟨r.ra, r.rb, r.nab, r.nba, ⟨i, j, oA, oB, h3, h4, h5, h6, c1, c2, Or.inl sl1, sl2, n1, n2, w1, w2, q1, q2, k1, k2⟩⟩
+      refine linked_release (hd := []) r' hs ho hfid ?_ u.rng u.opts u.others u.self u.outq
+        (fun hh => by rw [u.dq] at hh; exact hsub _ hh) ?_ ?_ rfl
+      · rw [u.flows]; exact lookup_erase_self _ _
+      · cases hfs : oA.finishSent with
+        | true => left; simp
+        | false => right; simp
+      · refine RelCase.notif rfl hrx ?_
+        intro hfs; simp [hfs]
+    · -- already released: nothing happens
+      have hs : lookup p.a.flows x = none := sl1
+      have he : (closeFlow { p.a with droppedq := rest } x false).1 = { p.a with droppedq := rest } := by
+        unfold closeFlow
+        have : lookup ({ p.a with droppedq := rest } : EP).flows x = none := hs
+        rw [this]
+      rw [he]
+      refine ⟨r.ra, r.rb, r.nab, r.nba, ⟨i, j, oA, oB, h3, h4, h5, h6, c1, c2, Or.inr ⟨sl1, f1, f2⟩, sl2, n1, n2, w1, w2,
+        fun hh => q1 (hsub _ hh), q2, ?_, ?_⟩⟩
+      · intro hk; exact k1 hk
+      · intro hk; exact k2 hk
+  by_cases hL : Linked x (ev x p.a p.ga) (ev x p.b p.gb) (fl x (pathAB p)) (fl x (pathBA p))
+  · exact ⟨inj_linked (live hL), fun _ => live hL⟩
+  · have dead : ∀ (_ : ¬ x ∈ p.a.rng) (_ : ¬ x ∈ p.b.rng) (_ : noConnect (fl x (pathAB p))) (_ : noConnect (fl x (pathBA p))),
+        (lookup (closeFlow { p.a with droppedq := rest } x false).1.flows x = none ∨ lookup p.b.flows x = none ∨
+          ¬ noReset (fl x (p.ab ++ (closeFlow { p.a with droppedq := rest } x false).1.outq)) ∨ ¬ noReset (fl x (pathBA p))) →
+        Phase x { p with a := (closeFlow { p.a with droppedq := rest } x false).1 } := by
+      intro ra rb nab nba g
+      exact Or.inr (Or.inr (Or.inr (Or.inr (Or.inr (Or.inr ⟨fun hh => ra (s.rngSub.subset hh), rb,
+        noConnect_eff (p := p) s ra nab, nba, g⟩)))))
+    refine ⟨?_, fun hx => absurd (h.live x hx) hL⟩
+    rcases h.phase x with r | r | r | r | r | r | r
+    · exact absurd hin r.da
+    · exact absurd hin r.da
+    · exact absurd hin r.db
+    · exact absurd hin r.da
+    · obtain ⟨j, oP, rest', l, _, _, _, h4, h5, _⟩ := r.body
+      refine dead r.rb r.ra ?_ (by rw [r.fab]; intro m hm; cases hm) (Or.inl (closeFlow_slot_none _ x false))
+      rw [h4]
+      intro m hm
+      rcases List.mem_cons.mp hm with hh | hh
+      · subst hh; rfl
+      · exact (h5 m hh).1
+    · exact absurd r hL
+    · refine dead r.ra r.rb r.nab r.nba ?_
+      rcases r.gone with g | g | g | g
+      · left
+        have : lookup ({ p.a with droppedq := rest } : EP).flows x = none := g
+        unfold closeFlow; rw [this]; exact g
+      · exact Or.inr (Or.inl g)
+      · right; right; left
+        intro hh; apply g
+        obtain ⟨em, he, _⟩ := s.outq
+        intro m hm
+        apply hh m
+        rw [he, ← List.append_assoc, fl_append]
+        exact List.mem_append_left _ hm
+      · exact Or.inr (Or.inr (Or.inr g))
 
 theorem runRetries_rng_nil (e : EP) (l : List Nat) (h : e.rng = []) : (Mux.runRetries e l).1.rng = [] := by
   induction l generalizing e with
@@ -113,11 +166,14 @@ theorem stepL_inv {p p' : PS} (a : Act) (h : Inv p) (hs : stepL p a = some p') :
     split at hs
     · cases hs
     · split at hs
-      · rename_i f rest hba
+      · cases hs
+      · rename_i f rest hnbind hba
         split at hs
         · rename_i e evs hpf
           cases hs
-          have := inv_recv h f rest hba
+          have hnb : ∀ a b c d, f ≠ .bind a b c d := by
+            intro a b c d hf; subst hf; exact hnbind a b c d rfl
+          have := inv_recv h f rest hba hnb
           rw [hpf] at this
           exact this
         · cases hs
@@ -167,7 +223,7 @@ theorem init_inv (oa ob : Opts) (ra rb : List Nat)
     (hoa : 0 < oa.rwnd ∧ oa.rwnd < 4294967296) (hob : 0 < ob.rwnd ∧ ob.rwnd < 4294967296)
     (hnd : (ra ++ rb).Nodup) (hnz : ∀ k ∈ ra ++ rb, k ≠ 0) : Inv (init oa ob ra rb) := by
   refine ⟨⟨rfl, rfl, rfl, hoa.1, hoa.2⟩, ⟨rfl, rfl, rfl, hob.1, hob.2⟩, ?_, ?_, hnd, hnz,
-    fun _ _ => ⟨rfl, rfl, rfl⟩, fun _ _ => ⟨rfl, rfl, rfl⟩, ?_⟩
+    fun _ _ => ⟨rfl, rfl, rfl⟩, fun _ _ => ⟨rfl, rfl, rfl⟩, ?_, fun x hx => by cases hx⟩
   · intro y k hy; simp [init] at hy
   · intro y k hy; simp [init] at hy
   · intro x
